@@ -79,7 +79,7 @@ def gen_program(rng):
                 name = fresh("mac")
                 k = rng.randrange(0, 5)
                 ps = [fresh("par") for _ in range(k)]
-                body = gen_items(ps + (params if rng.random() < 0.5 else []), depth + 1, rng.randrange(1, 4))
+                body = gen_items(ps + (params if rng.random() < 0.5 else []), depth + 1, rng.choice([0, 1, 1, 2, 2, 3]))     # 0: an empty body still takes its arguments
                 items.append(('def', name, ps, body))
                 if depth == 0:
                     macros[name] = k
